@@ -5,4 +5,4 @@ CONSTANTS
   Kinds = {"d", "h"}
   HistOn = TRUE
 VIEW ViewNoHist
-INVARIANTS RootsBinary WitnessesVerify AddWitnessVerifies TamperRejected RefsStored RecoverSame
+INVARIANTS OutOfRange RootsBinary WitnessesVerify AddWitnessVerifies TamperRejected RefsStored RecoverSame
